@@ -85,9 +85,11 @@ def _build(d):
                          d.choice([0, 1, -3, 2.5, 100, True, 'text', 7.0])])
     if d.pick(4) == 0:
         hist = [['eval', c] for c in model['order']] + hist
+    post = [[d.choice(sorted(model['inputs'])),
+             d.choice([0, 1, -3, 2.5, 100, 7.0])] for _ in range(d.pick(3))]
     return {'model': model, 'extras': extras, 'errs': errs, 'names': names,
             'history': hist, 'ext': d.choice(EXTS),
-            'precompile': d.pick(6) == 0}
+            'precompile': d.pick(6) == 0, 'post': post}
 
 
 def strategy(tier):
@@ -333,6 +335,27 @@ def judge(case):
                 res.fail('restored-evaluates-differently:%s' % when, o1, o2,
                          a)
                 return res
+        # the restored model keeps working like the original: the same
+        # input changes applied to both give the same values
+        for a, v in case.get('post') or []:
+            e1.set_cell_value(a, v)
+            e2.set_cell_value(a, v)
+        if case.get('post'):
+            for a in sorted(m.formulae):
+                if a not in m.cells:
+                    continue
+                try:
+                    o1 = norm(e1.evaluate(a))
+                except Exception as err:  # noqa: BLE001
+                    o1 = root_exc(err)
+                try:
+                    o2 = norm(e2.evaluate(a))
+                except Exception as err:  # noqa: BLE001
+                    o2 = root_exc(err)
+                if not close(o1, o2, rel=0):
+                    res.fail('restored-diverges-after-input-change', o1, o2,
+                             [a, case['post']])
+                    return res
         # idempotence of the round trip
         try:
             m2.persist_to_json_file(fn2)
